@@ -24,7 +24,7 @@ typedef struct {
     int kind[B_MAXA];
     int rounds;
     int n[B_MAXR];  /* num_waiters of round k */
-    int reinit;     /* call ABT_barrier_reinit between all rounds */
+    int reinit;     /* call ABT_barrier_reinit between all rounds (2: early) */
     int ntask;      /* tasklets on ES1 calling ABT_barrier_wait once */
 } cfg_t;
 
@@ -56,6 +56,15 @@ static const cfg_t cfgs[] = {
     { "n=2 r=3: U0 + U1", 0, 2, { K_U0, K_U1 }, 3, { 2, 2, 2 }, 0, 0 },
     { "reinit 1->2->3 r=3: X (+ U1) (+ U0)", 0, 3, { K_X, K_U1, K_U0 }, 3,
       { 1, 2, 3 }, 1, 0 },
+    /* early reinit: participant 0 reinitialises as soon as IT has returned
+     * from the round (so the round is complete and the counter is 0) while the
+     * others may still be leaving it */
+    { "early reinit 2->2 r=2: U1 (reinit right after its return) + X", 1, 2,
+      { K_U1, K_X }, 2, { 2, 2 }, 2, 0 },
+    { "early reinit 2->3 r=2: M + X (+ U1 in round 1)", 0, 3, { K_M, K_X, K_U1 },
+      2, { 2, 3 }, 2, 0 },
+    { "early reinit 2->2 r=3: X (reinit) + U1", 0, 2, { K_X, K_U1 }, 3,
+      { 2, 2, 2 }, 2, 0 },
 };
 
 static const cfg_t *C;
@@ -81,8 +90,11 @@ static void waiter(int i)
     for (int k = 0; k < C->rounds; k++) {
         if (C->reinit && k > 0) {
             if (i == 0) {
-                /* nobody is inside ABT_barrier_wait any more */
-                wait_eq(kind, &left_cnt[k - 1], C->n[k - 1]);
+                /* nobody is inside ABT_barrier_wait any more (reinit == 1);
+                 * reinit == 2: the caller itself has left the round, which is
+                 * therefore complete, but the others may still be leaving */
+                if (C->reinit == 1)
+                    wait_eq(kind, &left_cnt[k - 1], C->n[k - 1]);
                 OK(ABT_barrier_reinit(BAR, (uint32_t)C->n[k]));
                 uint32_t nw = 0;
                 OK(ABT_barrier_get_num_waiters(BAR, &nw));
